@@ -26,7 +26,8 @@ WEIGHTS = {'exact_counts': 10, 'layered': 4, 'merge_chain': 2, 'degenerate': 2, 
 
 
 def strategy(tier):
-    return S.pipeline_case(WEIGHTS, vary=('msa', 'okta', 'sep'), p_default_prms=0.1)
+    return S.pipeline_case(WEIGHTS, vary=('msa', 'okta', 'sep'), p_default_prms=0.1, anomalies=True,
+                           anomaly_negative=False)
 
 
 def jobs(tier, seed):
